@@ -16,4 +16,5 @@ m=re.search(r"(\d+) `fix:` commits repair defects", s)
 s=s.replace(m.group(0), f"{int(m.group(1))+1} `fix:` commits repair defects")
 open(f,'w').write(s)
 PY
+python3 /verif/tools/mk_fixed_mods.py > /dev/null
 echo "recorded $H"
